@@ -44,6 +44,7 @@ structure St where
   fcRest : List Nat := []                -- blobs the parked forced cleanup still has to visit
   fcDel : List Nat := []                 -- what it deleted so far
   fcErr : Nat := 0
+  manual : List (Nat × Bool) := []       -- uploads made request by request: (key, patched?)
   mon : Mon := {}
 
 def parseCfg (toks : List String) : Option St := do
@@ -133,7 +134,7 @@ def violations (mon : Mon) (args impl : List String) (final : Bool) : List Strin
   let classify (k : Nat) : String :=
     let b := dig k
     let ackedNow : Bool := match args with
-      | [op, kt] => (op == "upload" || op == "uploade") && kt == s!"k{k}"
+      | [op, kt] => (op == "upload" || op == "uploade" || op == "ubegin" || op == "upatch" || op == "ucommit" || op == "dcommit") && kt == s!"k{k}"
       | _ => false
     if ackedNow then
       (if b ∈ mon.tainted then "forced-cleanup-during-commit"
@@ -214,6 +215,42 @@ def step (s : St) (kind : String) (args impl : List String) : Option (St × Step
         let (m2, del, err) := fcMany (downKeys s) (listed.dropWhile (· ≠ b)) m1 del err
         let mon := s.mon.pausedUp.foldl (fun mon pb => taintIf mon pb true) mon
         fin { s with m := m2 } mon (doneToks del err) "fcb.done"
+    else if op = "ubegin" ∨ op = "upatch" ∨ op = "ucommit" ∨ op = "dcommit" then do
+      let k ← key? kt
+      let b := dig k
+      let cached := b ∈ s.m.cache
+      let entry := s.manual.find? (·.1 = k)
+      let mon := { s.mon with nsSeen := if (b, k % 2) ∈ s.mon.nsSeen then s.mon.nsSeen else (b, k % 2) :: s.mon.nsSeen }
+      let mon := taintIf mon b (s.mon.pausedFc == some b)
+      let ackIf (mon : Mon) (c : Bool) : Mon :=
+        if c then { mon with acked := if k ∈ mon.acked then mon.acked else k :: mon.acked } else mon
+      -- a write-back call for k made now (commit or conflict path), run to its end
+      let wb (delay : Nat) : State × Bool := runThread 8 (OriginWB.step dig s.m (.upload k delay)) k
+      if op = "ubegin" then
+        if entry.isSome ∨ hasThread s.m k then fin s s.mon ["busy"] "ubegin.busy"
+        else if cached then
+          let (m2, ack) := wb 0
+          fin { s with m := settle m2 } (ackIf mon (res = "conflict")) [if ack then "conflict" else "err"] "ubegin.conflict"
+        else fin { s with manual := (k, false) :: s.manual } mon ["started"] "ubegin.started"
+      else match entry with
+        | none => fin s s.mon ["none"] (op ++ ".none")
+        | some (_, patched) =>
+          let rest := s.manual.filter (·.1 ≠ k)
+          if op = "upatch" then
+            if cached then
+              let (m2, ack) := wb 0
+              fin { s with m := settle m2, manual := rest } (ackIf mon (res = "conflict")) [if ack then "conflict" else "err"] "upatch.conflict"
+            else fin { s with manual := (k, true) :: rest } mon ["patched"] "upatch.patched"
+          else if !patched then fin s s.mon ["none"] (op ++ ".unpatched")
+          else if op = "ucommit" then
+            let (m2, ack) := wb 0
+            fin { s with m := settle m2, manual := rest } (ackIf mon (res = "ok" ∨ res = "conflict"))
+              [if ack then (if cached then "conflict" else "ok") else "err"] (if cached then "ucommit.conflict" else "ucommit.ok")
+          else -- dcommit: the duplicate-commit handler does not go through the conflict path
+            if cached then fin { s with manual := rest } mon ["conflict"] "dcommit.conflict"
+            else
+              let (m2, ack) := wb 1
+              fin { s with m := settle m2, manual := rest } (ackIf mon (res = "ok")) [if ack then "ok" else "err"] "dcommit.ok"
     else if op = "fetch" then do
       let b ← blob? kt
       fin { s with m := OriginWB.step dig s.m (.fetch b) } s.mon ["ok"] (if b ∈ s.m.cache then "fetch.present" else "fetch.new")
@@ -261,7 +298,7 @@ def step (s : St) (kind : String) (args impl : List String) : Option (St × Step
     fin { s with m := settle (pollLoop (2 * m1.r.todo.length + 2) m1) } s.mon ["ok"] "poll"
   | ["restart"] =>
     if s.m.fc ≠ [] then fin s s.mon ["busy"] "restart.busy" else
-    fin { s with m := OriginWB.step dig s.m .restart, fcRest := [], fcDel := [], fcErr := 0 }
+    fin { s with m := OriginWB.step dig s.m .restart, fcRest := [], fcDel := [], fcErr := 0, manual := [] }
       { s.mon with pausedUp := [], pausedFc := none, pausedKeys := [] } ["ok"] "restart"
   | ["final"] => fin s s.mon [] "final" (final := true)
   | _ => none
